@@ -302,6 +302,56 @@ theorem sortDesc_binPts (xs ts ws : List Q) (h : xs.length = ts.length) (hw : ts
 
 theorem fullV_one (v : Int) : fullV (.int 1) (.int v) = .ok (.vec [XQ.val ((v : Int) : Q)]) := rfl
 
+/-! ### `torch.max(x)` of a whole tensor, `torch.abs` (recall at fixed precision) -/
+
+theorem xmax_val (a b : Q) : xmax (.val a) (.val b) = .val (Curve.qmax a b) := by
+  simp only [xmax, xisNan, xlt, Curve.qmax, Bool.false_or, Bool.false_eq_true, if_false, decide_eq_true_eq]
+  split <;> rfl
+
+theorem foldl_xmax_val (l : List Q) (a : Q) :
+    (l.map XQ.val).foldl xmax (.val a) = .val (l.foldl Curve.qmax a) := by
+  induction l generalizing a with
+  | nil => rfl
+  | cons x xs ih => simp only [List.map_cons, List.foldl_cons, xmax_val, ih]
+
+theorem maxAllV_val (l : List Q) :
+    maxAllV (.vec (l.map XQ.val)) = (Curve.listMax l).map fun q => Val.scalar (.val q) := by
+  cases l with
+  | nil => rfl
+  | cons x xs => simp only [List.map_cons, maxAllV, foldl_xmax_val, Curve.listMax, Except.map]
+
+theorem maxAllV_map {α : Type} (l : List α) (g : α → Q) :
+    maxAllV (.vec (l.map fun a => XQ.val (g a))) = (Curve.listMax (l.map g)).map fun q => Val.scalar (.val q) := by
+  rw [← maxAllV_val, List.map_map]; rfl
+
+theorem xabs_val (a : Q) : xabs (.val a) = .val (Curve.qabs a) := rfl
+
+theorem fullV_one_flt (v : Q) : fullV (.int 1) (.num v) = .ok (.vec [XQ.val v]) := rfl
+
+theorem zip_fst_snd {α β : Type} (W : List (α × β)) : (W.map (·.1)).zip (W.map (·.2)) = W := by
+  induction W with
+  | nil => rfl
+  | cons w W ih => simp [ih]
+
+/-! ### the Python-level loop over tasks (`_binary_auprc_compute`) -/
+
+/-- `p, r, t = _compute_for_each_class(a, b, 1); _riemann_integral(r, p)` on argument terms `a`, `b` -/
+def auprcTerm (cfe ri a b : TExpr) : TExpr :=
+  .call2 "x" (.fst (.snd (.call3 "input" a "target" b "pos_label" (.int 1) cfe))) "y"
+    (.fst (.call3 "input" a "target" b "pos_label" (.int 1) cfe)) ri
+
+theorem rowDynV_nat (M : List (List XQ)) (j : Nat) (hj : j < M.length) :
+    rowDynV (.mat M) (.int ((j : Nat) : Int)) = .ok (.vec M[j]) := by
+  have h0 : (0 : Int) ≤ (j : Int) := by omega
+  simp only [rowDynV, h0, if_true, Int.toNat_natCast, List.getElem?_eq_getElem hj]
+
+theorem range_map_getD {α β : Type} (l : List α) (d : α) (F : α → β) :
+    (List.range l.length).map (fun j => F (l.getD j d)) = l.map F := by
+  apply List.ext_getElem (by simp)
+  intro j h1 h2
+  simp at h1
+  simp [List.getD_eq_getElem?_getD, h1]
+
 theorem some_beq_nan (x : XQ) : ((some x : Option XQ) == some XQ.nan) = xisNan x := by
   cases x <;> first | rfl | decide
 
